@@ -73,30 +73,33 @@ def reconcile(ctx, R, residual, table_entries, msg_unreviewed, msg_excess):
         k, kind = tk.rsplit("|", 1)
         ceil[(base_fn(k), kind)] += ent["ceiling"]
         why[(base_fn(k), kind)] = ent["why"]
-    excess = defaultdict(list)    # kind -> [(fn, items beyond ceiling)]
+    def fam(kind):
+        # indexing a Vec (Index::index call) and indexing a slice (MIR bounds assert) are the same construct written on different types
+        return "index" if kind.startswith("index:") or kind == "bounds" else kind
+    excess = defaultdict(list)    # kind family -> [(fn, items beyond ceiling)]
     deficit = defaultdict(int)
     for (fn, kind), items in sorted(found.items()):
         c = ceil.get((fn, kind), 0)
         tk = "%s|%s" % (fn, kind)
         if len(items) > c:
-            excess[kind].append((fn, items[c:], c, len(items)))
+            excess[fam(kind)].append((fn, items[c:], c, len(items), kind))
             if c:
                 ctx.exception(R, tk, "%d/%d residual: %s" % (c, c, why[(fn, kind)]), items[0][0])
         else:
             ctx.exception(R, tk, "%d/%d residual: %s" % (len(items), c, why[(fn, kind)]), items[0][0])
-            deficit[kind] += c - len(items)
+            deficit[fam(kind)] += c - len(items)
     for (fn, kind), c in ceil.items():
         if (fn, kind) not in found:
-            deficit[kind] += c
+            deficit[fam(kind)] += c
     for kind, lst in sorted(excess.items()):
         n_excess = sum(len(x[1]) for x in lst)
         if n_excess <= deficit.get(kind, 0):
-            for fn, items, c, n in lst:
+            for fn, items, c, n, kind in lst:
                 ctx.exception(R, "%s|%s|moved" % (fn, kind), "%d site(s) beyond this function's reviewed ceiling are matched by %d reviewed site(s) of the same "
                               "kind that disappeared elsewhere (code moved between functions; the total number of undischarged %s sites did not grow)"
-                              % (len(items), deficit[kind], kind), items[0][0])
+                              % (len(items), deficit[fam(kind)], kind), items[0][0])
             continue
-        for fn, items, c, n in lst:
+        for fn, items, c, n, kind in lst:
             tk = "%s|%s" % (fn, kind)
             if c == 0:
                 for loc, detail in items:
